@@ -20,6 +20,10 @@ FakedWBEMConnection(default_namespace='root/cimv2').  A macro step is one of
                           (the only public way to reach "exists in one of the two namespaces")
     ['open', N]           OpenEnumerateInstancePaths('TST_A', MaxObjectCount=0) in N: leaves an
                           enumeration context on the server
+    ['nsprovider']        install_namespace_provider('interop') (pywbem_mock.CIMNamespaceProvider)
+                          on a hand-written CIM_Namespace class
+    ['veto', N]           (set-up of single cases only) register a user-defined
+                          InstanceWriteProvider for TST_Sub in N whose DeleteInstance raises
 and every step first establishes what it needs (namespace, schema, end point instances) through
 the same public calls, so that "create a multi-namespace association" is ONE step.  A step that
 raises is not a valid step and is dropped.
@@ -29,10 +33,13 @@ From every start state:
            batch made of an ordered selection (no repetition) of valid filler productions (new
            qualifier declaration Q, new class C, new subclass S, new instance I - only fillers that
            are accepted on their own in that state) with ONE invalid production inserted at
-           position k, for every k and every rejection reason.
+           position k, for every k and every rejection reason.  (Batches only from start states up
+           to a smaller depth, see BOUNDS; a reason whose invalid production is accepted on its own
+           in a state is not combined with fillers there.)
   single   one operation call that is rejected for one documented reason (class, qualifier,
-           instance incl. multi-namespace association, namespace operations).  A case may name
-           macro steps as its own set-up (executed after the start history, before the snapshot).
+           instance incl. multi-namespace association and provider-managed instances, namespace
+           operations).  A case may name macro steps as its own set-up (executed after the start
+           history where still to do, before the snapshot).
 
 Oracle: the call raises (any exception) => snapshot(after) == snapshot(before), strictly.  A call
 that does not raise is trivial for this property.  When the call raised and nothing changed, a
@@ -40,10 +47,14 @@ fixed list of valid follow-up operations is executed on the connection and on a 
 saw the failed call: same outcome, same results, same final snapshot ('unusable-after-failure').
 
 Signature: {'check': batch|single, 'what': repository-changed|unusable-after-failure,
-'api': method, 'reason': intended rejection reason, 'changed': store kind that changed
-(namespaces|classes|instances|qualifiers|contexts; one violation per kind) resp. the first
-follow-up that differed}.  The case is {'check', 'history' (macro steps), ...call description};
-Acc keeps the smallest witness per signature; replay() re-executes history + call.
+'api': method, 'reason': intended rejection reason, 'changed': ...}.  For repository-changed there
+is one violation per store kind that changed (namespaces|classes|instances|qualifiers|contexts);
+in a batch the plain kind means "objects of earlier valid productions were kept", and
+'<kind>:beyond-earlier-productions' means the store differs in any other way (the failing
+production itself left something, or existing objects were touched).  For unusable-after-failure
+'changed' is the first follow-up that behaved differently.  The case is {'check', 'history' (macro
+steps), ...call description}; Acc keeps the smallest witness per signature; replay() re-executes
+history + call.
 """
 import json
 import hashlib
@@ -80,6 +91,13 @@ ASSUMPTIONS = [
     'never saw the failed call',
     'macro steps establish their own prerequisites through the same public calls (see module doc)',
     'batches go to the default namespace root/cimv2 (namespace=None)',
+    'uuid.uuid4 in pywbem_mock._mainprovider is replaced by a counter (enumeration context ids)',
+    'the PLY table modules pywbem._mofparsetab/_moflextab, which an installed pywbem ships but the '
+    'working tree lacks, are generated once per process by pywbem\'s own _yacc()/_lex() into the '
+    'scratch directory and registered in sys.modules (otherwise every MOFCompiler() rebuilds the '
+    'LALR table: 60 ms instead of 2 ms per compile call); semantic actions are the real ones',
+    'the namespace provider runs on a 6-key CIM_Namespace class compiled by the harness instead of '
+    'the DMTF schema; add_namespace() then falls back to the main provider (no CIM_ObjectManager)',
 ]
 
 DEFNS = 'root/cimv2'
@@ -1342,6 +1360,9 @@ def _single_cases():
 
 
 SINGLE = None
+SAMPLE_CASES = ['CreateClass/non-overridable@root/cimv2', 'ModifyClass/has-subclasses@root/cimv2',
+                'DeleteQualifier/in-use@root/b', 'CreateInstance/multins-class-missing-in-second-ns@root/cimv2',
+                'ModifyInstance/multins-copy-missing-in-second-ns@root/b', 'remove_namespace/interop']
 
 
 def single_cases():
@@ -1443,7 +1464,10 @@ def run_shard(shard, tier):
         acc.state_hashes.add(st['key'])
         if shard['check'] == 'single':
             for cid in single_cases():
-                run_single_case(acc, st, cid, fref)
+                res = run_single_case(acc, st, cid, fref)
+                if i == 0 and cid in SAMPLE_CASES and len(acc.samples) < acc.MAX_SAMPLES:
+                    acc.samples.append(dict(start_history=st['history'], single_case=cid,
+                                            call=single_cases()[cid]['text'], verdict=res))
         else:
             run_batch(acc, st, shard['api'], shard['reasons'], tier, fref)
     return acc
